@@ -1,1 +1,149 @@
-fn main() {}
+//! `fakegen` — the scripted fake code generator used by engine E3 (`/verif/mc/src/proc.rs`).
+//!
+//! The harness hard-links this one executable into a scenario's private generator directory under a distinct
+//! name per generator.  A generator finds its behaviour in the file `<argv[0]>.script` (JSON, written by
+//! `proc::Script::to_json`) and leaves three records next to itself:
+//!
+//! * `<argv[0]>.started` — one line `pid=<pid> argc=<n>` appended per start (so a double start is visible),
+//! * `<argv[0]>.stdin`   — every byte it read from stdin (created when it starts, appended after each read step),
+//! * `<argv[0]>.done`    — written immediately before the process ends through the script (normal exit, scripted
+//!   exit code, or self-inflicted signal); it is missing only if somebody else killed the generator.
+//!
+//! Script: `{"steps":[STEP,...]}` with STEP one of
+//! `{"op":"read_all"}` (read stdin until EOF), `{"op":"read","n":N}` (read exactly N bytes or until EOF),
+//! `{"op":"close_stdin"}`, `{"op":"sleep","ms":N}` (explicit delay point), `{"op":"stdout","hex":".."}`,
+//! `{"op":"stderr","hex":".."}` (write errors, e.g. EPIPE, are ignored), `{"op":"close_stdout"}`,
+//! `{"op":"exit","code":N}`, `{"op":"kill","signal":N}` (default disposition restored, core dumps disabled).
+//! The end of the script is `exit 0`.  A missing or malformed script is exit code 97 with nothing written to the
+//! standard streams (so that slicec sees an ordinary failing generator and the harness sees no `.done`).
+
+use std::io::{Read, Write};
+
+fn unhex(s: &str) -> Vec<u8> {
+    let b = s.as_bytes();
+    let mut out = Vec::with_capacity(b.len() / 2);
+    let val = |c: u8| match c {
+        b'0'..=b'9' => c - b'0',
+        b'a'..=b'f' => c - b'a' + 10,
+        b'A'..=b'F' => c - b'A' + 10,
+        _ => 0,
+    };
+    let mut i = 0;
+    while i + 1 < b.len() {
+        out.push(val(b[i]) << 4 | val(b[i + 1]));
+        i += 2;
+    }
+    out
+}
+
+fn append(path: &str, bytes: &[u8]) {
+    if let Ok(mut f) = std::fs::OpenOptions::new().create(true).append(true).open(path) {
+        let _ = f.write_all(bytes);
+    }
+}
+
+fn finish(me: &str) {
+    append(&format!("{me}.done"), b"done\n");
+}
+
+fn main() {
+    let me = std::env::args().next().unwrap_or_default();
+    let me = if me.contains('/') {
+        me
+    } else {
+        std::env::current_exe().map(|p| p.display().to_string()).unwrap_or(me)
+    };
+    append(&format!("{me}.started"), format!("pid={} argc={}\n", std::process::id(), std::env::args().count()).as_bytes());
+    append(&format!("{me}.stdin"), b"");
+    let script: serde_json::Value = match std::fs::read(format!("{me}.script")).ok().and_then(|b| serde_json::from_slice(&b).ok()) {
+        Some(v) => v,
+        None => std::process::exit(97),
+    };
+    let empty = vec![];
+    let steps = script["steps"].as_array().unwrap_or(&empty);
+    let mut stdin_open = true;
+    for step in steps {
+        match step["op"].as_str().unwrap_or("") {
+            "read_all" => {
+                if stdin_open {
+                    let mut buf = Vec::new();
+                    let _ = std::io::stdin().lock().read_to_end(&mut buf);
+                    append(&format!("{me}.stdin"), &buf);
+                }
+            }
+            "read" => {
+                if stdin_open {
+                    let n = step["n"].as_u64().unwrap_or(0) as usize;
+                    let mut buf = vec![0u8; n];
+                    let mut got = 0;
+                    let mut si = std::io::stdin().lock();
+                    while got < n {
+                        match si.read(&mut buf[got..]) {
+                            Ok(0) => break,
+                            Ok(k) => got += k,
+                            Err(e) if e.kind() == std::io::ErrorKind::Interrupted => continue,
+                            Err(_) => break,
+                        }
+                    }
+                    append(&format!("{me}.stdin"), &buf[..got]);
+                }
+            }
+            "close_stdin" => {
+                unsafe { libc::close(0) };
+                stdin_open = false;
+            }
+            "sleep" => std::thread::sleep(std::time::Duration::from_millis(step["ms"].as_u64().unwrap_or(0))),
+            "stdout" => {
+                let bytes = unhex(step["hex"].as_str().unwrap_or(""));
+                // raw fd write: no buffering, errors (EPIPE, EBADF after close_stdout) ignored
+                let mut off = 0;
+                while off < bytes.len() {
+                    let r = unsafe { libc::write(1, bytes[off..].as_ptr() as *const libc::c_void, bytes.len() - off) };
+                    if r <= 0 {
+                        break;
+                    }
+                    off += r as usize;
+                }
+            }
+            "stderr" => {
+                let bytes = unhex(step["hex"].as_str().unwrap_or(""));
+                let mut off = 0;
+                while off < bytes.len() {
+                    let r = unsafe { libc::write(2, bytes[off..].as_ptr() as *const libc::c_void, bytes.len() - off) };
+                    if r <= 0 {
+                        break;
+                    }
+                    off += r as usize;
+                }
+            }
+            "close_stdout" => {
+                unsafe { libc::close(1) };
+            }
+            "exit" => {
+                finish(&me);
+                std::process::exit(step["code"].as_i64().unwrap_or(0) as i32);
+            }
+            "kill" => {
+                let sig = step["signal"].as_i64().unwrap_or(9) as i32;
+                finish(&me);
+                unsafe {
+                    // no core files in the scenario directory
+                    let lim = libc::rlimit { rlim_cur: 0, rlim_max: 0 };
+                    libc::setrlimit(libc::RLIMIT_CORE, &lim);
+                    // the Rust runtime installs a SIGSEGV/SIGBUS handler (stack overflow detection) that would
+                    // simply return for a raised signal: restore the default disposition first
+                    libc::signal(sig, libc::SIG_DFL);
+                    libc::kill(libc::getpid(), sig);
+                    // not reached for fatal signals; make sure the process still ends abnormally
+                    std::thread::sleep(std::time::Duration::from_millis(200));
+                    libc::signal(libc::SIGKILL, libc::SIG_DFL);
+                    libc::kill(libc::getpid(), libc::SIGKILL);
+                }
+                std::process::exit(98);
+            }
+            _ => {}
+        }
+    }
+    finish(&me);
+    std::process::exit(0);
+}
